@@ -116,7 +116,7 @@ static void one_d(vh::Reader& r, vh::Out& o)
 			Interpolation b = mk.make();
 			o.f(v);
 			o.f(f.Derivative(x));
-			o.f(b.Derivative(x));
+			o.f(b.Derivative(x, 1u));	// what the default argument stands for: the first derivative
 		}
 		else if(w == "G" || w == "m" || w == "M")
 		{
